@@ -258,9 +258,10 @@ REGISTRY = {
     },
     'C17': {
         'theorems': ['PP.C04.sound_pformat', 'PP.C17.empty_call', 'PP.C17.hug_only_exact', 'PP.C17.call_tokens', 'PP.C17.kw_tokens',
-                     'PP.C03.output_tokens'],
+                     'PP.C03.output_tokens', 'PP.C17.fields_shown_iff', 'PP.C17.fields_in_declaration_order', 'PP.C17.fields_rebuild',
+                     'PP.C17.hidden_field_rebuilt_from_default', 'PP.C17.instance_tokens'],
         'modules': VALUE_MODULES + ['PP.Props.Values', 'PP.Spec.Tokens', 'PP.Proofs.Toks', 'PP.Proofs.ToksStr', 'PP.Proofs.ToksComb',
-                                    'PP.Proofs.ToksVal', 'PP.Props.C03', 'PP.Props.TokensMore'],
+                                    'PP.Proofs.ToksVal', 'PP.Props.C03', 'PP.Props.TokensMore', 'PP.Model.Fields', 'PP.Props.C17b'],
         'sections': [{'name': 'calls', 'run': values_sec('calls_section')},
                      {'name': 'dataclasses-attrs', 'run': simple_sec('sec_extras', 'extras_section')}],
         'trusted': VALUE_TRUSTED,
